@@ -348,6 +348,13 @@ def symbol_needs_import(fullname, namespaces):
     return True
 
 
+# Statements and expressions whose parts may not be executed.
+_CONDITIONAL_NODES = tuple(
+    getattr(ast, n) for n in
+    ("If", "For", "AsyncFor", "While", "Try", "TryStar", "Match", "IfExp",
+     "BoolOp") if hasattr(ast, n))
+
+
 class _UseChecker:
     """
     An object that can check whether it was used.
@@ -433,6 +440,8 @@ class _MissingImportFinder:
         # Current lineno.
         self._lineno = None
         self._in_class_def = 0
+        # Number of enclosing statements whose body may not run.
+        self._conditional_depth = 0
 
     def find_missing_imports(self, node):
         self._scan_node(node)
@@ -530,7 +539,14 @@ class _MissingImportFinder:
             else:
                 logger.debug("No method `%s`, using `generic_visit`", method)
                 visitor = self.generic_visit
-            return visitor(node)
+            # A store inside a statement whose body may not run does not
+            # kill the binding that precedes it (see _visit_Store).
+            conditional = isinstance(node, _CONDITIONAL_NODES)
+            self._conditional_depth += conditional
+            try:
+                return visitor(node)
+            finally:
+                self._conditional_depth -= conditional
         else:
             raise TypeError("unexpected %s" % (type(node).__name__,))
 
@@ -830,13 +846,20 @@ class _MissingImportFinder:
         assert node._fields == ('type', 'name', 'body')
         if node.type:
             self.visit(node.type)
+        scope = self.scopestack[-1]
+        missing = object()
+        previous = scope.get(node.name, missing) if node.name else missing
         if node.name:
             self._visit_Store(node.name)
         self.visit(node.body)
         if node.name:
             # Python unbinds the name at the end of the handler
-            # (``except E as e: ...`` ends with an implicit ``del e``).
-            self.scopestack[-1].pop(node.name, None)
+            # (``except E as e: ...`` ends with an implicit ``del e``); but
+            # the handler may not run at all, and then the previous binding
+            # is still there.
+            scope.pop(node.name, None)
+            if previous is not missing:
+                scope[node.name] = previous
 
     def visit_AugAssign(self, node) -> None:
         # ``x += v`` reads ``x`` before it stores it.  The generic visitor
@@ -1111,7 +1134,8 @@ class _MissingImportFinder:
             # record it as unused.
             oldvalue = scope.get(fullname)
             if (isinstance(oldvalue, _UseChecker) and not oldvalue.used
-                and oldvalue.name == fullname):
+                and oldvalue.name == fullname
+                and not self._conditional_depth):
                 logger.debug("Adding to unused %s", oldvalue)
                 self.unused_imports.append((oldvalue.lineno, oldvalue.source))
         scope[fullname] = value
